@@ -76,6 +76,20 @@ def step (_ : Unit) (line : String) : Unit × String :=
       let r := hexEncE (String.ofList (loadText (mapping env) txt.toList))
       ((), r ++ " ||| " ++ (if impl == r then "ok" else "bad:dotenv-precedence want=" ++ r))
     | _, _, _ => ((), "bad-op")
+  | ["launchenv", g, a, b, kh] =>
+    match parsePairs g, parsePairs a, parsePairs b, hexDec kh with
+    | some glob, some ownP, some ownQ, some k =>
+      -- every launch of a process gets the environment of that process: its own variables over the
+      -- global ones, with its own name and replica number
+      let view (name : String) (own : List (String × String)) : String :=
+        match envLookup (processEnv name 0 [] glob own) k with
+        | some v => hexEncE v
+        | none => "unset"
+      let p := view "p" ownP
+      let q := view "q" ownQ
+      let m := s!"p1={p} p2={p} q1={q}"
+      ((), m ++ " ||| " ++ (if impl == m then "ok" else "bad:a command was handed another process's environment (or lost its own): want " ++ m))
+    | _, _, _, _ => ((), "bad-op")
   | ["procenv", nh, rep, a, b, c, kh] =>
     match hexDec nh, rep.toNat?, parsePairs a, parsePairs b, parsePairs c, hexDec kh with
     | some name, some r, some inh, some glob, some own, some k =>
